@@ -336,47 +336,6 @@ Qed.
 
 (* ------------------------------------------------------- the initial build + mount *)
 
-Fixpoint build_items (b : builder) (ks : list N) (next : N) (gen : nat) : list item :=
-  match ks with
-  | [] => []
-  | k :: r => {| it_key := k; it_gen := gen; it_nodes := fst (b k next) |}
-              :: build_items b r (snd (b k next)) (S gen)
-  end.
-Fixpoint build_next (b : builder) (ks : list N) (next : N) : N :=
-  match ks with [] => next | k :: r => build_next b r (snd (b k next)) end.
-
-Lemma build_items_keys : forall b ks next gen, map it_key (build_items b ks next gen) = ks.
-Proof. induction ks as [|k ks IH]; intros; cbn [build_items map it_key]; [|rewrite IH]; reflexivity. Qed.
-
-Lemma build_items_range : forall b ks next gen, bld_ok b ->
-  NoDup (flat_map it_nodes (build_items b ks next gen)) /\
-  (forall n, In n (flat_map it_nodes (build_items b ks next gen)) -> (next <= n < build_next b ks next)%N) /\
-  (next <= build_next b ks next)%N.
-Proof.
-  intros b ks. induction ks as [|k ks IH]; intros next gen Hb.
-  - simpl. split; [constructor|]. split; [intros n []|lia].
-  - cbn [build_items flat_map it_nodes build_next]. destruct (Hb k next) as [Hne [Hnd Hr]].
-    pose proof (bld_ok_mono b k next Hb) as Hm.
-    destruct (IH (snd (b k next)) (S gen) Hb) as [I1 [I2 I3]]. repeat split.
-    + clear -Hnd I1 I2 Hr. revert Hnd Hr. generalize (fst (b k next)) as l. induction l as [|x l IHl]; intros Hnd Hr; auto.
-      simpl. inversion Hnd; subst. constructor.
-      * intro Hc. apply in_app_or in Hc. destruct Hc as [Hc|Hc]; [contradiction|].
-        specialize (I2 x Hc). specialize (Hr x (or_introl eq_refl)). lia.
-      * apply IHl; auto. intros; apply Hr; right; auto.
-    + apply in_app_or in H. destruct H as [H|H]; [specialize (Hr n H); lia | specialize (I2 n H); lia].
-    + apply in_app_or in H. destruct H as [H|H]; [specialize (Hr n H); lia | specialize (I2 n H); lia].
-    + lia.
-Qed.
-
-Lemma build_items_nonempty : forall b ks next gen it, bld_ok b ->
-  In it (build_items b ks next gen) -> it_nodes it <> [].
-Proof.
-  induction ks as [|k ks IH]; intros next gen it Hb Hin; [contradiction|].
-  cbn [build_items] in Hin. destruct Hin as [E|Hin].
-  - subst. cbn [it_nodes]. apply Hb.
-  - eapply IH; eauto.
-Qed.
-
 Lemma fold_step_build : forall b ks i w,
   let w' := fold_left (step_build b) (enumerate_from i ks) w in
   w_children w' = w_children w ++ map Some (build_items b ks (w_next w) (w_gen w)) /\
@@ -549,4 +508,139 @@ Example ex_history : history_ok [100; 101]%N [102%N] ex_state [[8; 9; 5]; []; [1
 Proof.
   apply keyed_history_ok; [exact ex_state_wf|].
   repeat constructor; simpl; intuition discriminate.
+Qed.
+
+(* ----------------------------------------- which items are new, and the final list *)
+
+(** the new items of an update: built in order for the keys of [to] that were not rendered *)
+Definition new_items (b : builder) (to : list N) (its : list item) (next : N) (gen : nat) : list item :=
+  build_items b (newkeys to its) next gen.
+
+Theorem apply_diff_new : forall pre post mk to (b : builder) its next gen,
+  bld_ok b -> wf_items pre post mk next its -> NoDup to ->
+  let w := apply_diff b mk (diff (map it_key its) to) to (start pre post mk its next gen) in
+  (forall it, In it (somes (w_children w)) -> In it its \/ In it (new_items b to its next gen)) /\
+  w_next w = build_next b (newkeys to its) next /\ w_gen w = gen + length (newkeys to its).
+Proof.
+  intros pre post mk to b its next gen Hb Hwf Hto. cbv zeta. unfold new_items.
+  destruct its as [|it0 its'] eqn:Eits.
+  - set (n := length to).
+    assert (diff_loop [] to (Nat.max (length (@nil N)) (length to)) 0 0 0 None = ([], [], normal_adds 0 n)) as El.
+    { cbn [length Nat.max]. apply diff_loop_from_empty. reflexivity. }
+    pose proof (diff_loop_spec [] to Hto (Nat.max (length (@nil N)) (length to)) 0 0 0 None _ _ _
+                  (Nat.le_refl _) El) as LS.
+    pose proof (apply_general_new pre post mk to b Hb [] next gen Hwf Hto _ _ _ LS) as P.
+    cbv zeta in P. cbn [map] in *.
+    assert (apply_diff b mk (diff [] to) to (start pre post mk [] next gen)
+            = apply_general mk b [] [] (normal_adds 0 n) to (start pre post mk [] next gen)) as ->; [|exact P].
+    destruct (diff_from_empty to) as [F1 [F2 [F3 F4]]]. fold n in F3, F4.
+    rewrite (apply_diff_general mk b _ [] [] (append_adds 0 n)); auto.
+    unfold apply_general. cbn [fold_left enumerate_from]. unfold append_adds, normal_adds.
+    rewrite !map_length. fold (append_adds 0 n). fold (normal_adds 0 n).
+    rewrite fold_append_normal; [reflexivity|].
+    intros j it _ Hc. cbn [with_children w_children start map app] in Hc.
+    apply nth_error_In in Hc. apply repeat_spec in Hc. discriminate.
+  - destruct to as [|t0 to'] eqn:Eto.
+    + rewrite <- Eits in *. assert (diff (map it_key its) [] =
+        {| d_removed := []; d_moved := []; d_items_to_move := 0; d_added := []; d_clear := true |}) as ->.
+      { rewrite Eits. reflexivity. }
+      unfold apply_diff. cbn [d_clear d_added andb].
+      destruct (fold_step_clear its (start pre post mk its next gen)) as [C [D [L [Nx [G P]]]]].
+      change (w_children (start pre post mk its next gen)) with (map Some its).
+      cbn [with_children w_children w_next w_gen somes]. rewrite Nx, G. cbn [start w_next w_gen].
+      unfold newkeys. cbn [filter build_items build_next length]. rewrite Nat.add_0_r.
+      split; [intros it []|auto].
+    + rewrite <- Eits, <- Eto in *.
+      assert (map it_key its <> []) as Hf by (rewrite Eits; discriminate).
+      assert (to <> []) as Ht by (rewrite Eto; discriminate).
+      destruct (diff_loop (map it_key its) to (Nat.max (length (map it_key its)) (length to)) 0 0 0 None)
+        as [[r ms] a] eqn:El.
+      pose proof (diff_loop_spec (map it_key its) to Hto
+                    (Nat.max (length (map it_key its)) (length to)) 0 0 0 None _ _ _
+                    (Nat.le_refl _) El) as LS.
+      assert (Forall (fun mv => m_len mv = 1) ms) as Hl.
+      { eapply Forall_impl; [|exact (ls_mv_ok _ _ _ _ _ _ _ _ LS)]. intros mv [H _]. exact H. }
+      destruct (unpack_diff _ _ _ _ _ Hf Ht El Hl) as [U1 [U2 [U3 U4]]].
+      rewrite (apply_diff_general mk b _ r ms a); auto.
+      exact (apply_general_new pre post mk to b Hb its next gen Hwf Hto _ _ _ LS).
+Qed.
+
+(** the final list, spelled out: in the order of [to], the old item of a retained key, the
+    next new item otherwise *)
+Fixpoint assemble (to : list N) (olds news : list item) : list item :=
+  match to with
+  | [] => []
+  | k :: r =>
+      match find_item k olds with
+      | Some it => it :: assemble r olds news
+      | None => match news with
+                | n :: ns => n :: assemble r olds ns
+                | [] => []
+                end
+      end
+  end.
+
+Lemma build_items_keys' : forall b ks next gen, map it_key (build_items b ks next gen) = ks.
+Proof. induction ks as [|k ks IH]; intros; cbn [build_items map it_key]; [|rewrite IH]; reflexivity. Qed.
+
+Lemma assemble_eq : forall b to olds items next gen,
+  NoDup to -> NoDup (map it_key olds) -> map it_key items = to ->
+  (forall it, In it items -> In it olds \/
+     In it (build_items b (filter (fun k => negb (memN k (map it_key olds))) to) next gen)) ->
+  items = assemble to olds (build_items b (filter (fun k => negb (memN k (map it_key olds))) to) next gen).
+Proof.
+  intros b to olds. induction to as [|k to IH]; intros items next gen Hto Ho Hk Hprov.
+  - destruct items; [reflexivity|discriminate].
+  - destruct items as [|x items]; [discriminate|]. cbn [map] in Hk. inversion Hk as [[Hkx Hkr]].
+    inversion Hto as [|? ? Hnk Hto']; subst.
+    cbn [assemble filter].
+    destruct (find_item (it_key x) olds) as [o|] eqn:Ef.
+    + (* retained: the old item *)
+      apply find_item_Some in Ef. destruct Ef as [Hin Hko].
+      assert (memN (it_key x) (map it_key olds) = true) as Hm.
+      { apply memN_In. rewrite <- Hko. apply in_map. auto. }
+      rewrite Hm. cbn [negb].
+      assert (x = o) as ->.
+      { destruct (Hprov x (or_introl eq_refl)) as [Hx|Hx].
+        - apply (same_key_same_item olds x o); auto.
+        - exfalso. apply (in_map it_key) in Hx. rewrite build_items_keys' in Hx.
+          apply filter_In in Hx. destruct Hx as [_ Hx]. rewrite Hm in Hx. discriminate. }
+      f_equal. apply IH; auto.
+      intros it Hit. destruct (Hprov it (or_intror Hit)) as [H|H]; auto. right.
+      cbn [filter] in H. rewrite Hm in H. exact H.
+    + (* new: the next item built *)
+      apply find_item_None in Ef.
+      assert (memN (it_key x) (map it_key olds) = false) as Hm by (apply memN_false; exact Ef).
+      rewrite Hm. cbn [negb build_items].
+      assert (x = {| it_key := it_key x; it_gen := gen; it_nodes := fst (b (it_key x) next) |}) as Ex.
+      { destruct (Hprov x (or_introl eq_refl)) as [Hx|Hx].
+        - exfalso. apply Ef. apply in_map. auto.
+        - cbn [filter] in Hx. rewrite Hm in Hx. cbn [negb build_items] in Hx. destruct Hx as [Hx|Hx]; auto.
+          exfalso. apply (in_map it_key) in Hx. rewrite build_items_keys' in Hx. apply filter_In in Hx.
+          destruct Hx as [Hx _]. contradiction. }
+      rewrite <- Ex. f_equal. apply IH; auto.
+      intros it Hit. destruct (Hprov it (or_intror Hit)) as [H|H]; auto.
+      cbn [filter] in H. rewrite Hm in H. cbn [negb build_items] in H. destruct H as [H|H]; auto.
+      exfalso. apply Hnk. replace (it_key x) with (it_key it) by (rewrite <- H; reflexivity).
+      apply in_map. exact Hit.
+Qed.
+
+(** one rebuild: the items of the new state, spelled out *)
+Theorem rebuild_items : forall pre post st to,
+  st_wf pre post st -> NoDup to ->
+  let '(st', log, p) := rebuild st to in
+  ks_items st' = assemble to (ks_items st) (new_items (ks_bld st) to (ks_items st) (ks_next st) (ks_gen st)) /\
+  ks_next st' = build_next (ks_bld st) (newkeys to (ks_items st)) (ks_next st) /\
+  ks_gen st' = ks_gen st + length (newkeys to (ks_items st)).
+Proof.
+  intros pre post st to Hwf Hto. pose proof (keyed_rebuild_ok pre post st to Hwf Hto) as Hok.
+  destruct Hwf as [Hb [Hk [Hd Hwf]]]. unfold keyed_ok, rebuild in *.
+  pose proof (apply_diff_new pre post (ks_marker st) to (ks_bld st) (ks_items st) (ks_next st) (ks_gen st)
+                Hb Hwf Hto) as P.
+  cbv zeta in P. unfold start in P. rewrite <- Hd, Hk in P.
+  set (w := apply_diff (ks_bld st) (ks_marker st) (diff (ks_keys st) to) to _) in *.
+  destruct P as [P1 [P2 P3]]. cbn [ks_items ks_next ks_gen] in *.
+  destruct Hok as [_ [_ [Hkeys _]]].
+  split; [|auto]. unfold new_items, newkeys.
+  apply assemble_eq; auto. exact (wf_keys _ _ _ _ _ Hwf).
 Qed.
